@@ -1,9 +1,10 @@
 #!/bin/bash
-# ./sweep.sh <tier> <seed> [<seed> ...]   runs every claimed check at the given seeds; prints one line per (property, seed) plus any alarm lines
+# ./sweep.sh <tier> <seed> [<seed> ...]   runs every claimed check (or those named in VERIF_PROPS) at the given seeds; prints one line per (property, seed) plus any alarm lines
 cd "$(dirname "$0")"
 . ./env.sh
 TIER="$1"; shift
-PROPS=$(python3 -c "import json;print(' '.join(c['property_id'] for c in json.load(open('MANIFEST.json'))['checks']))")
+PROPS="${VERIF_PROPS:-}"
+[ -n "$PROPS" ] || PROPS=$(python3 -c "import json;print(' '.join(c['property_id'] for c in json.load(open('MANIFEST.json'))['checks']))")
 ./setup.sh >/dev/null 2>&1 || { echo "setup failed"; exit 2; }
 for s in "$@"; do
   for p in $PROPS; do
